@@ -18,6 +18,7 @@ RULE = ('complete enumeration of: every body length 0..70000 (+ boundaries to 2^
         'parse-then-grow/shrink across each width boundary. A value is non-trivial when it lies within 2 of a width '
         'boundary, or is any growth/partial/MPI/timestamp case; distinct by (sub-domain, value, form).')
 RULE += " MPIs are also decoded from zero-padded encodings (declared bit count 1..31 above the value's) and their re-encoding must decode back to the value and be consumed exactly."
+RULE += ' Values just beyond a field (lengths >= 2^32, old-format widths, integers of more than 65535 bits) must be refused by the encoders.'
 ASSUMPTIONS = ['refpgp.wire implements RFC 4880 4.2 / 5.2.3.1 / 3.2 / 3.7.1.3 arithmetic correctly (self-tested against '
                'the RFC examples)', 'bodies above 70000 octets are exercised at header level only (no multi-gigabyte bodies)']
 
@@ -125,6 +126,51 @@ def w_oldlen(arg):
                 if got != n.to_bytes(w, 'big'):
                     rec.finding('oldlen-encode', 'width%d' % w, {'kind': 'oldenc', 'n': n, 'w': w}, got.hex())
     rec.exhaustive['old-format lengths 0..70000 x length types'] = True
+    return rec
+
+
+def w_beyond(arg):
+    """values just beyond what a field can hold: "never emitting a length field narrower than the value needs" --
+    the encoder refuses, it does not write octets that decode to something else"""
+    Header, MPI, Packet, Opaque, SubHeader = _types()
+    rec = harness.Rec()
+    for n in (1 << 32, (1 << 32) + 1, (1 << 32) + 192, 1 << 40):
+        for nhf, w in ((True, 1), (False, 4)):
+            case = {'kind': 'beyond', 'n': n, 'new': nhf}
+            rec.case(('beyond', n, nhf), True, ('beyond-the-field/%s' % ('new' if nhf else 'old'),), {'sub': 'unrepresentable length', 'n': n, 'format': 'new' if nhf else 'old'})
+            try:
+                got = bytes(Header.encode_length(n, nhf, w))
+            except (ValueError, OverflowError):
+                continue
+            except Exception as e:   # noqa
+                rec.finding('beyond', 'exception/' + harness.exc_key(e), case, repr(e))
+                continue
+            rec.finding('beyond', 'length-written-in-a-field-too-narrow/%s' % ('new' if nhf else 'old'), case, got.hex())
+    for w, n in ((1, 256), (2, 65536), (2, 70000)):
+        case = {'kind': 'beyond', 'n': n, 'new': False, 'w': w}
+        rec.case(('beyond-old', n, w), True, ('beyond-the-field/old',), {'sub': 'unrepresentable length', 'n': n, 'format': 'old', 'width': w})
+        try:
+            got = bytes(Header.encode_length(n, False, w))
+        except (ValueError, OverflowError):
+            continue
+        rec.finding('beyond', 'length-written-in-a-field-too-narrow/old', case, got.hex())
+    for bits in (65536, 65537, 70000):
+        v = 1 << (bits - 1)
+        case = {'kind': 'beyond', 'bits': bits}
+        rec.case(('beyond-mpi', bits), True, ('beyond-the-field/mpi',), {'sub': 'integer with more than 65535 bits', 'bits': bits})
+        try:
+            got = bytes(MPI(v).to_mpibytes())
+        except (ValueError, OverflowError):
+            continue
+        except Exception as e:   # noqa
+            rec.finding('beyond', 'exception/' + harness.exc_key(e), case, repr(e))
+            continue
+        try:
+            back, used = wire.mpi_decode(got, 0)
+        except Exception:   # noqa
+            back, used = None, 0
+        if back != v or used != len(got):
+            rec.finding('beyond', 'bit-count-written-in-a-field-too-narrow/mpi', case, got[:4].hex())
     return rec
 
 
@@ -480,6 +526,7 @@ def run(tier, seed):
     for sh in range(8):
         tasks.append(('w_partial', (maxe, nch, sh, 8, seed)))
     tasks.append(('w_growth', None))
+    tasks.append(('w_beyond', None))
     rec = harness.pmap('vpgpy.props.c09', 'dispatch', tasks)
     return rec
 
@@ -495,6 +542,8 @@ def replay(case):
         r = w_newlen((case['n'], case['n'] + 1))
     elif k in ('olddec', 'oldenc'):
         r = w_oldlen((case['n'], case['n'] + 1))
+    elif k == 'beyond':
+        r = w_beyond(None)
     elif k == 'subdec':
         r = w_sublen((case['n'], case['n'] + 1))
     elif k in ('mpi', 'mpi-padded'):
